@@ -49,7 +49,12 @@ RULE = ('bases: generated reference (taxonomy depth 1-6 with chains and '
         'flatten x drop_level (quick: one droppable level + sometimes the '
         'absent level; thorough: all) with private genes for the dropped '
         'parents, crossed with n_runners_up=0 / bootstrap_iteration=1 / the '
-        'three encodings.  non-trivial = the run tree of the pair (reduced / '
+        'three encodings; level names in prefix relation (class / class_fine, '
+        'level1 / level10, ...) on 2 bases of 5 and absent-level strings that '
+        'are prefixes / suffixes / extensions of level names; per base drop and '
+        'absent pairs with min_markers 2-5 and parents at / below the dropped '
+        'level listing fewer usable genes (a gene palette per level); drop and '
+        'absent pairs also compare the traced gene list of every node.  non-trivial = the run tree of the pair (reduced / '
         'one-level / stored) has a parent with >= 2 children, i.e. a vote is '
         'taken; distinct by canonical JSON of (kind, level, problem, config)')
 TRUSTED = ['anndata/h5py write and read back the query and the stats file as '
@@ -112,9 +117,85 @@ def gen_tree(rng, i):
     return U.gen_e2e_tree(rng, max_depth=5, max_leaves=10), 'free'
 
 
+PREFIX_CHAINS = [['class', 'class_fine', 'class_fine2', 'class_fine2b',
+                  'class_fine2bz'],
+                 ['level1', 'level10', 'level100', 'level1000', 'level10000'],
+                 ['sub', 'subclass', 'subclass_', 'subclass_x', 'subclass_xy']]
+
+
+def prefix_names(rng, depth):
+    """level names one of which is a proper prefix of another, in any
+    vertical order"""
+    names = list(rng.choice(PREFIX_CHAINS)[:max(depth, 1)])
+    if depth > 2 and rng.random() < 0.4:
+        names[rng.randrange(depth)] = 'other'
+    rng.shuffle(names)
+    return names
+
+
+def absent_level(rng, h):
+    """a string that is no level of the taxonomy but a prefix / suffix /
+    extension of one"""
+    x = rng.choice(h)
+    cands = [x[:-1], x[:max(1, len(x) // 2)], x[1:], x + '_x', x + '0',
+             x.upper() if x.upper() != x else x + 'X', ABSENT]
+    cands = [c for c in cands if c and c not in h]
+    return rng.choice(cands)
+
+
+def deficient_table(rng, problem, level, m):
+    """marker table for min_markers = m in which parents AT `level` (when it
+    is a level) and BELOW it list fewer than m genes of the query (topped up
+    with reference-only genes), every level drawing on its own palette of
+    genes, so that a fallback taken from the wrong ancestor changes the genes
+    a node votes on"""
+    tree = problem['tree']
+    h = tree['hierarchy']
+    qset = set(problem['query_genes'])
+    shared = [g for g in problem['ref_genes'] if g in qset]
+    r_only = [g for g in problem['ref_genes'] if g not in qset]
+    rng.shuffle(shared)
+    # palettes: root, then one per non-leaf level (overlap only if needed)
+    slots = [None] + list(h[:-1])
+    k = max(m, len(shared) // len(slots))
+    palette = {}
+    for i, sl in enumerate(slots):
+        pal = shared[i * k:(i + 1) * k]
+        if len(pal) < m:
+            pal = pal + rng.sample(shared, m - len(pal))
+        palette[sl] = pal
+    idx = h.index(level) if level in h else -1
+    # mostly: the parents AT the level keep full lists (a tempting, wrong
+    # fallback source) and the parents right below it are deficient
+    at_too = rng.random() < 0.3
+    table = {}
+    for p in U.all_parent_keys(tree):
+        sl = None if p is None else p[0]
+        pal = palette[sl]
+        d = -1 if p is None else h.index(p[0]) - max(idx, 0)
+        prob = 0.0 if d < 0 else (0.7 if at_too else 0.0) if d == 0 \
+            else 0.9 if d == 1 else 0.5
+        if idx < 0 and d >= 0:
+            prob = 0.7
+        if rng.random() < prob:
+            n_ok = rng.randint(0, m - 1)
+            lst = rng.sample(pal, min(n_ok, len(pal)))
+            if r_only:
+                lst += rng.sample(r_only, min(len(r_only), rng.randint(1, 2)))
+            if not lst:
+                lst = [pal[0]]
+        else:
+            lst = rng.sample(pal, min(len(pal), rng.randint(m, m + 2)))
+        table[U.marker_key(p)] = lst
+    return table
+
+
 def gen_base(rng, i):
     tree, mode = gen_tree(rng, i)
-    problem = U.make_problem(rng, tree=tree,
+    if i % 5 in (1, 3) and len(tree['hierarchy']) >= 2:
+        tree = U.rename_levels(tree, prefix_names(rng, len(tree['hierarchy'])))
+        mode += '+prefix-names'
+    problem = U.make_problem(rng, tree=tree, n_genes=rng.randint(12, 20),
                              n_cells=None if i % 3 else rng.randint(4, 12))
     cfg = U.gen_config(rng, problem, flatten=False)
     cfg['flatten'] = False
@@ -197,7 +278,8 @@ def entry_class(a, b):
     return 'payload'
 
 
-PRIORITY = ['cells', 'reduced-levels', 'levels', 'root-markers', 'assignment',
+PRIORITY = ['cells', 'reduced-levels', 'levels', 'root-markers', 'node-genes',
+            'assignment',
             'ancestor',
             'flag', 'inferred-payload', 'probability', 'runner-up',
             'correlation', 'payload']
@@ -308,6 +390,18 @@ def flatten_cell_fail(a, b, h, leaf, anc):
     return None
 
 
+def nodes_fail(na, nb):
+    """the nodes of run A must vote on the gene lists of run B"""
+    if na is None or nb is None:
+        return None
+    ga, gb = U.node_genes(na), U.node_genes(nb)
+    if ga != gb:
+        k = sorted(set(ga) | set(gb), key=lambda x: (ga.get(x) == gb.get(x), x))[0]
+        return ('node-genes', 'parent %s votes on %r in run A, on %r in run B'
+                % (k, ga.get(k), gb.get(k)))
+    return None
+
+
 def absent_fail(problem, ra, rb):
     if ra != rb:
         f = ids_fail(problem, ra, rb)
@@ -315,7 +409,7 @@ def absent_fail(problem, ra, rb):
             return f
         found = [(entry_class(a.get(l), b.get(l)),
                   'cell %r level %r:\n drop_level=%r: %r\n no drop_level: %r'
-                  % (a['cell_id'], l, ABSENT, a.get(l), b.get(l)))
+                  % (a['cell_id'], l, 'an absent level', a.get(l), b.get(l)))
                  for a, b in zip(ra, rb) for l in a if a.get(l) != b.get(l)]
         return worst(found) or ('payload', 'results differ')
     return None
@@ -408,6 +502,13 @@ def check_pair(ctx, problem, cfg, kind, level=None, label='random',
     ctx.count('%s:factor:%s' % (kind, cfg['bootstrap_factor']))
     ctx.count('%s:iterations:%d' % (kind, cfg['bootstrap_iteration']))
     ctx.count('%s:workers:%d' % (kind, cfg['n_processors']))
+    ctx.count('%s:min_markers:%d' % (kind, cfg.get('min_markers', 1)))
+    if kind == 'absent' and level != ABSENT:
+        ctx.count('absent:prefix-like-string')
+    if kind == 'drop' and any(x != level and (x.startswith(level) or
+                                             level.startswith(x))
+                              for x in h[:-1]):
+        ctx.count('drop:level-name-prefix-of-another')
     ctx.count('%s:shape:%s' % (kind, c01.tree_shape_class(tree)))
     if kind == 'drop':
         for t in level_traits(tree, level):
@@ -429,10 +530,10 @@ def check_pair(ctx, problem, cfg, kind, level=None, label='random',
     with (pipeline.workdir('ctmverif_ll_pair_') if share[0]
           else contextlib.nullcontext(None)) as wd:
         tmp = (not share[0]) or share[1]
-        ra = U.run_problem(problem, cfg_a, want_trace=flat, workdir=wd,
+        ra = U.run_problem(problem, cfg_a, want_trace=True, workdir=wd,
                            tmp_dir=tmp)
         rb = U.run_problem(problem, cfg_b, tree=tree_b, markers=markers_b,
-                           want_trace=False, workdir=wd, tmp_dir=tmp)
+                           want_trace=not flat, workdir=wd, tmp_dir=tmp)
     if not ra['ok'] and not rb['ok']:
         # nothing to compare; that a valid problem is mapped at all is C01
         ctx.count('pair:both-fail:%s' % c01.error_class(ra['error']))
@@ -445,7 +546,8 @@ def check_pair(ctx, problem, cfg, kind, level=None, label='random',
                    'succeeds' if rb['ok'] else 'fails',
                    ra['error'] or rb['error']))
     elif kind == 'drop':
-        fail = drop_fail(problem, level, ra['results'], rb['results'])
+        fail = worst([drop_fail(problem, level, ra['results'], rb['results']),
+                      nodes_fail(ra['nodes'], rb['nodes'])])
     elif flat:
         fail = flatten_fail(problem, ra['results'], rb['results'])
         if fail is None:
@@ -453,7 +555,8 @@ def check_pair(ctx, problem, cfg, kind, level=None, label='random',
             if msg:
                 fail = ('root-markers', msg)
     else:
-        fail = absent_fail(problem, ra['results'], rb['results'])
+        fail = worst([absent_fail(problem, ra['results'], rb['results']),
+                      nodes_fail(ra['nodes'], rb['nodes'])])
     if fail is None and ra['ok']:
         f01 = U.c01_predicate(tree, cfg_a, problem['cell_ids'], ra['results'],
                               ra['out_tree'])
@@ -500,7 +603,25 @@ def check_base(ctx, problem, cfg, mode='replay', all_levels=True):
     pf = dict(problem, markers=privatize(rng, problem, None))
     check_pair(ctx, pf, cfg, 'flatten')
     cfg_abs = dict(cfg, flatten=rng.random() < 0.25)
-    check_pair(ctx, problem, cfg_abs, 'absent', ABSENT)
+    check_pair(ctx, problem, cfg_abs, 'absent', absent_level(rng, h))
+    # deficient parents: min_markers 2-5, parents at / below the dropped level
+    # with fewer usable markers, a palette of genes per level -- the fallback
+    # must come from the ancestors of the REDUCED tree (drop) / be untouched
+    # (absent level, also strings that are prefixes of level names)
+    if len(h) >= 2:
+        levels = list(h[:-1])
+        if not all_levels:
+            # prefer a level with non-leaf levels below it
+            levels = [rng.choice(h[:-2] if len(h) >= 3 else levels)]
+        for level in levels:
+            m = rng.randint(2, 5)
+            pd = dict(problem, markers=deficient_table(rng, problem, level, m))
+            check_pair(ctx, pd, dict(cfg, min_markers=m), 'drop', level)
+        m = rng.randint(2, 5)
+        pd = dict(problem, markers=deficient_table(rng, problem,
+                                                   rng.choice(h[:-1]), m))
+        check_pair(ctx, pd, dict(cfg, min_markers=m), 'absent',
+                   absent_level(rng, h))
     # flatten TOGETHER with drop_level: the dropped level's parents own genes
     # nobody else lists; crossed with no runners-up / a single iteration
     levels = list(h[:-1])
@@ -524,7 +645,7 @@ def check_base(ctx, problem, cfg, mode='replay', all_levels=True):
 def run(ctx):
     quick = ctx.tier == 'quick'
     c01.run_corpus(ctx, 'C17', replay)
-    for i in range(12 if quick else 100):
+    for i in range(10 if quick else 90):
         problem, cfg, mode = gen_base(ctx.rng, i)
         check_base(ctx, problem, cfg, mode, all_levels=not quick)
 
